@@ -737,6 +737,9 @@ pub fn cmd_wirefaults(tier: &str, seed: u64, workers: usize, out: &str, replay_d
     for mi in 0..msgs.len() as u64 {
         jobs.push((b'C', mi, 0));
     }
+    // L: long messages (amplification): a multi-byte character at every byte offset up to 130 behind
+    // ASCII padding, messages repeated up to 100 times, kilobyte-long runs
+    jobs.push((b'L', 0, 0));
     // E: every Unicode scalar value substituted into each position of representative messages
     for chunk in 0..(0x110000u64 / 0x8000) {
         jobs.push((b'E', chunk, 0));
@@ -870,6 +873,44 @@ pub fn cmd_wirefaults(tier: &str, seed: u64, workers: usize, out: &str, replay_d
                                     }
                                 }
                             }
+                        }
+                        b'L' => {
+                            let mut cnt = 0u64;
+                            for prefix in ["", "a1n", "p", "R", "zz"] {
+                                for pad in ['a', ' ', 'x', '1', 'n'] {
+                                    for wide in ['\u{e9}', '\u{20ac}', '\u{1f600}'] {
+                                        for tail in ["", "a1n", "\u{e9}\u{e9}"] {
+                                            for n in 0..=130usize {
+                                                let mut t = String::from(prefix);
+                                                for _ in 0..n {
+                                                    t.push(pad);
+                                                }
+                                                t.push(wide);
+                                                t.push_str(tail);
+                                                check(&t, "long_message_wide_char_at_every_offset", &mut fails);
+                                                cnt += 1;
+                                            }
+                                        }
+                                    }
+                                }
+                            }
+                            for m in ["a1n", "p", "h8w", "E", "r", "n", "a1", "\u{e9}"] {
+                                for sep in ["", " ", "\n", "\r\n", ","] {
+                                    for k in [2usize, 3, 5, 8, 11, 16, 17, 32, 33, 64, 100] {
+                                        let t = vec![m; k].join(sep);
+                                        check(&t, "long_message_repeated", &mut fails);
+                                        cnt += 1;
+                                    }
+                                }
+                            }
+                            for c in ['a', '1', ' ', 'p', '\u{e9}', '\u{1f600}', '\0'] {
+                                for k in [255usize, 256, 257, 1023, 1024, 4096, 65_536] {
+                                    let t: String = std::iter::repeat(c).take(k).collect();
+                                    check(&t, "long_message_run", &mut fails);
+                                    cnt += 1;
+                                }
+                            }
+                            *kinds.entry("fault.long_messages".into()).or_insert(0) += cnt;
                         }
                         b'E' => {
                             let reps: &[&str] = if thorough { &["a1n", "h8w", "d4e", "e5s", "c3n", "f6w", "a8s", "h1e", "p", "r", "E"] } else { &["a1n", "h8w", "d4e", "e5s", "p", "r"] };
